@@ -193,7 +193,13 @@ def eval_batched(wd, name, header, terms, evals, chunk):
     """common.coq_eval_cases in batches of BATCH cases (indices are re-based in Python)."""
     results = [[] for _ in evals]
     for b in range(0, len(terms), BATCH):
-        bad, err = common.coq_eval_cases(wd, f'{name}_{b // BATCH}', header, terms[b:b + BATCH], evals, chunk=chunk)
+        for attempt in range(3):
+            bad, err = common.coq_eval_cases(wd, f'{name}_{b // BATCH}', header, terms[b:b + BATCH], evals, chunk=chunk)
+            if err and 'inconsistent assumptions' in err and attempt < 2:
+                # a library was recompiled under us (another check or a developer build): rebuild and retry
+                common.build(MODEL_TARGETS, [])
+                continue
+            break
         if err:
             return results, err
         for k in range(len(evals)):
